@@ -1302,12 +1302,14 @@ func verifyGitObjectAndAttestations(ctx context.Context, policy *State, target s
 				// The global rule applies to the namespace under verification
 				slog.Debug(fmt.Sprintf("Verifying threshold global rule '%s'...", rule.GetName()))
 				requiredThreshold := rule.GetThreshold()
-				if rslSignatureNeededForThreshold && options.verifyMergeable {
-					// Since we're verifying if it's mergeable and we already know
-					// that the RSL signature is needed to meet threshold, we can
-					// reduce the global constraint threshold as well
+				if options.verifyMergeable && verifiedPrincipalIDs == requiredThreshold-1 {
+					// Since we're verifying if it's mergeable, the signature on
+					// the RSL entry for the merge can be the last one needed to
+					// meet the global constraint, whether or not it is also
+					// needed to meet the rule's threshold
 					slog.Debug("Reducing required global threshold by 1 (verifying if change is mergeable and RSL signature is required)...")
 					requiredThreshold--
+					rslSignatureNeededForThreshold = true
 				}
 				if verifiedPrincipalIDs < requiredThreshold {
 					// Check if the verifiedPrincipalIDs meets the required global
